@@ -126,13 +126,13 @@ type Sim struct {
 	notes []string
 	obs   []string // observation strings forming the outcome class
 
-	streamsSeen []*Stream
-	dialCancel  [2]context.CancelFunc
-	inWrite     map[*Stream]int // harness writes in progress (blocked inside WriteSCTP)
+	streamsSeen    []*Stream
+	dialCancel     [2]context.CancelFunc
+	inWrite        map[*Stream]int // harness writes in progress (blocked inside WriteSCTP)
 	quiescentHooks []func()
-	wroteBytes  map[*Stream]int // bytes accepted by harness writes, per stream
-	monDone     bool
-	InvOn       bool // evaluate white-box invariants at quiescent points
+	wroteBytes     map[*Stream]int // bytes accepted by harness writes, per stream
+	monDone        bool
+	InvOn          bool // evaluate white-box invariants at quiescent points
 }
 
 func (m *Sim) Failf(oracle, format string, args ...any) {
@@ -303,17 +303,17 @@ func (m *Sim) nameLock(p unsafe.Pointer) string {
 // execution runner
 
 type Exec struct {
-	Out      *vsched.Outcome
-	Viol     []Violation
-	Hist     []apiEvent
-	Events   []wireEvent
-	Obs      []string
-	Leaked   []string
+	Out         *vsched.Outcome
+	Viol        []Violation
+	Hist        []apiEvent
+	Events      []wireEvent
+	Obs         []string
+	Leaked      []string
 	ArmedTimers []int
-	Stuck    []string
-	Elapsed  time.Duration // virtual
-	Internal string        // harness-internal problem (not a property violation)
-	Prefix   []int
+	Stuck       []string
+	Elapsed     time.Duration // virtual
+	Internal    string        // harness-internal problem (not a property violation)
+	Prefix      []int
 }
 
 type Scenario struct {
